@@ -32,6 +32,10 @@ pub enum StopCase {
     /// is ended by the timer almost at once, and the game must still go on until the position has no legal move or
     /// the length guard ends it - never stop earlier because a stopped search had "no move"
     AutoPlay { fen: String, millis: u8 },
+    /// a walk whose picks prefer checks and captures; at every position along it with at most three legal moves
+    /// (forced recaptures, single flights, only an en-passant capture or a promotion left …) the earliest stop instants
+    /// are tried: whatever the fallback choice looks at, it must find one of the few legal moves
+    FewMoves { walk: Walk },
 }
 
 pub struct C07;
@@ -333,7 +337,7 @@ impl Prop for C07 {
     }
 
     fn rule(&self) -> String {
-        "Cases: end positions of generated walks, fresh or warm table (warm = after a depth-2 search of the same position). In-process the node-entry hook flips the stop flag after exactly N polls, N enumerated exhaustively 0..=64 and then geometrically (x1.4) up to the poll count of the full depth-limited search (depth 3-4), one search per N: the result must be a move legal in the reference model whenever the model has one (None only for checkmate/stalemate roots), and the hook must count 0 node entries after the flip; for a sample of stop instants every cached child of the root is then searched (depth 1-2) with the table the stopped search left behind and must get a legal answer too. Twelve game records that end in a forced repetition (three perpetual-check roots and their colour mirrors, the cycle a b a' b' a played once or after one earlier turn, so that the side to move has a single legal move and it is the one the root repetition filter removes) get the same sweep at depths 2-4 and, through the real binary, `go infinite` + `stop`, `go movetime 0/1` and an exhausted clock. Twelve self-play runs (`rustybait auto 0|1|2` from four start positions: every search is ended by the timer almost at once) must go on until the last printed position has no legal move or the length guard ends the game. Five fixed boards (start, Kiwipete, 5+5 queens, 8+8 queens, 9+9 queens) get `go depth d`, `stop` after 150 ms through the real binary and must answer within 10 s. Every sweep also contains the stop that is there before the search starts (flag already down), once with the table as it is and once with the root cached at full depth. About 1 case in 12 drives the real binary (half of them after a depth-3 search of the same root in the same session): `go infinite` immediately followed by `stop`, `go movetime 0..10`, or VERIF_STOP_AFTER_POLLS=N with `go depth 4`; `bestmove none` with legal moves available is the violation. evaluations = stopped searches. Non-trivial: N smaller than the polls a depth-1 iteration needs (the window in which no iteration has completed), and every binary session; distinct by (position, N).".into()
+        "Cases: end positions of generated walks, fresh or warm table (warm = after a depth-2 search of the same position). In-process the node-entry hook flips the stop flag after exactly N polls, N enumerated exhaustively 0..=64 and then geometrically (x1.4) up to the poll count of the full depth-limited search (depth 3-4), one search per N: the result must be a move legal in the reference model whenever the model has one (None only for checkmate/stalemate roots), and the hook must count 0 node entries after the flip; for a sample of stop instants every cached child of the root is then searched (depth 1-2) with the table the stopped search left behind and must get a legal answer too. Twelve game records that end in a forced repetition (three perpetual-check roots and their colour mirrors, the cycle a b a' b' a played once or after one earlier turn, so that the side to move has a single legal move and it is the one the root repetition filter removes) get the same sweep at depths 2-4 and, through the real binary, `go infinite` + `stop`, `go movetime 0/1` and an exhausted clock. Nine cases in ten are (cheap) walks whose picks prefer checks and captures: at every position along them with one to three legal moves (forced recaptures, single flights, only a capture or a promotion left) the stop before the start and the stop at polls 0, 1, 2, 3 and 6 of a depth-2 search must each yield one of those moves. Twelve self-play runs (`rustybait auto 0|1|2` from four start positions: every search is ended by the timer almost at once) must go on until the last printed position has no legal move or the length guard ends the game. Five fixed boards (start, Kiwipete, 5+5 queens, 8+8 queens, 9+9 queens) get `go depth d`, `stop` after 150 ms through the real binary and must answer within 10 s. Every sweep also contains the stop that is there before the search starts (flag already down), once with the table as it is and once with the root cached at full depth. About 1 case in 12 drives the real binary (half of them after a depth-3 search of the same root in the same session): `go infinite` immediately followed by `stop`, `go movetime 0..10`, or VERIF_STOP_AFTER_POLLS=N with `go depth 4`; `bestmove none` with legal moves available is the violation. evaluations = stopped searches. Non-trivial: N smaller than the polls a depth-1 iteration needs (the window in which no iteration has completed), and every binary session; distinct by (position, N).".into()
     }
 
     fn assumptions(&self) -> Vec<String> {
@@ -344,7 +348,7 @@ impl Prop for C07 {
     }
 
     fn cases(&self, tier: Tier) -> u32 {
-        tier.pick(1_600, 30_000)
+        tier.pick(17_600, 330_000)
     }
 
     fn shard_timeout_s(&self, tier: Tier) -> u64 {
@@ -359,6 +363,8 @@ impl Prop for C07 {
         prop_oneof![
             11 => (walk_strategy(false), 3u8..5, any::<bool>()).prop_map(|(walk, depth, warm)| StopCase::Sweep { walk, depth, warm }),
             1 => (walk_strategy(false), 0u8..3, any::<u16>()).prop_map(|(walk, mode, n)| StopCase::Uci { walk, mode, n }),
+            120 => (start_strategy(), proptest::collection::vec((prop_oneof![5 => Just(PK_CHECK), 3 => Just(PK_CAPTURE), 1 => Just(PK_PROMO), 1 => Just(PK_EP), 2 => Just(PK_ANY)], any::<u16>()).prop_map(|(kind, idx)| Pick { kind, idx }), 4..60))
+                .prop_map(|(start, picks)| StopCase::FewMoves { walk: Walk { start, picks } }),
         ]
         .boxed()
     }
@@ -459,6 +465,46 @@ impl Prop for C07 {
                     }
                 }
                 ev.nontrivial(fp_bytes(format!("{}{}", fen, millis).as_bytes()), || json!({"self_play_from": fen, "millis_per_move": millis, "positions": positions, "ended_by_length_guard": too_long}));
+                Ok(())
+            }
+            StopCase::FewMoves { walk } => {
+                let Some(r) = resolve_walk(walk) else {
+                    ev.skip("construction did not yield a sane position");
+                    return Ok(());
+                };
+                let mut g = Game::new(&r.start.fen6()).map_err(|e| Fail::new("sane-position-not-importable", e.to_string()))?;
+                let mut p = r.start.clone();
+                let mut played: Vec<RMove> = Vec::new();
+                for m in &r.moves {
+                    let Some(em) = eng::find_legal(&mut g, &m.uci()) else {
+                        return Err(Fail::new("legal-move-not-offered", format!("{} in {}", m.uci(), g.fen())));
+                    };
+                    g.push_history(em);
+                    p = p.make(*m);
+                    played.push(*m);
+                    let legal = p.legal();
+                    if legal.is_empty() || legal.len() > 3 || !search_friendly(&p) {
+                        continue;
+                    }
+                    ev.class(if legal.iter().all(|x| p.is_capture(*x)) { "few_move_positions_where_every_legal_move_is_a_capture" } else { "few_move_positions" });
+                    let texts: Vec<String> = legal.iter().map(|x| x.uci()).collect();
+                    let base = srch::new_table();
+                    for n in [BEFORE_START, 0, 1, 2, 3, 6] {
+                        let mut t = base.clone();
+                        let (best, _, after) = stopped_search(&g, &mut t, 2, n).map_err(|e| Fail::new("panic", format!("{} stop instant {}: {}", p.fen4(), n, e)))?;
+                        ev.eval();
+                        let bad = match &best {
+                            None => true,
+                            Some(b) => !texts.contains(b),
+                        };
+                        if bad || after != 0 {
+                            let rec = StopCase::Cycle { start: r.start.fen6(), moves: played.iter().map(|x| x.uci()).collect(), depth: 2, warm: false, binary: false };
+                            let sig = if after != 0 { "nodes-expanded-after-stop" } else if best.is_none() { "stopped-search-returns-no-move" } else { "stopped-search-returns-illegal-move" };
+                            return Err(Fail::new(sig, format!("{} ({} legal moves: {:?}): stop instant {} (-2 = before the search starts) of a depth-2 search: answer {:?}, {} node entries after the stop", p.fen4(), texts.len(), texts, n, best, after)).with_case(serde_json::to_value(rec).unwrap()));
+                        }
+                    }
+                    ev.nontrivial(mix(fp_pos(&p) ^ 0xFE3), || json!({"position": p.fen4(), "legal_moves": texts}));
+                }
                 Ok(())
             }
             StopCase::One { fen, depth, n } => {
